@@ -143,7 +143,7 @@ def plan_of(case):
     flat = [t for d in tokens_of(case) for t in d]
     kept = sorted(set(t for t in flat if t not in excl))
     vocab = {t: i for i, t in enumerate(kept)}
-    if not kept and (mask_string is None or listify(kw.get("window_functions", "fixed"), 1)[0] == "variable"):
+    if not flat or not kept and (mask_string is None or listify(kw.get("window_functions", "fixed"), 1)[0] == "variable"):
         return {"error": "ValueError"}      # nothing to count (variable radii of an empty frequency table: undefined)
     mask_id = None
     if mask_string is not None:
@@ -296,12 +296,14 @@ def norm_block(b, raw):
     return {q: (c, b["mix"] * v) for q, (c, v) in raw.items()}
 
 
-def spec(p, radii, nw):
-    M, n, kind = {}, p["n"], p["kind"]
+def occurrences(p, radii):
+    """Pointwise: every target occurrence as (row, [per block: {slot: (context token, mix-weighted kernel value)}]).
+    Returns None when the definition is undefined (timed geometric kernel with mean gap 0)."""
+    occs, kind = [], p["kind"]
     if kind in ("token", "ngram", "timed"):
         for d in p["docs"]:
             L = len(d)
-            tok = (lambda q: d[q][0]) if kind == "timed" else (lambda q: d[q])
+            tok = (lambda q, d=d: d[q][0]) if kind == "timed" else (lambda q, d=d: d[q])
             if kind == "ngram":
                 size = p["size"]
                 anchors = [(p["grams"][tuple(d[a:a + size])], a, a + size - 1) for a in range(L - size + 1)
@@ -328,7 +330,7 @@ def spec(p, radii, nw):
                             v = kweight(b, dist)
                         raw[q] = (tok(q), v)
                     per_block.append(norm_block(b, raw))
-                occ_contrib(M, n, row, per_block, nw)
+                occs.append((row, per_block))
     else:
         for doc in p["docs"]:
             for m, ms in enumerate(doc):
@@ -349,7 +351,17 @@ def spec(p, radii, nw):
                                     v = F(1) if b["kind"] == "flat" else b["power"] ** k
                                 raw[(q, s2)] = (t, v)
                         per_block.append(norm_block(b, raw))
-                    occ_contrib(M, n, tgt, per_block, nw)
+                    occs.append((tgt, per_block))
+    return occs
+
+
+def spec(p, radii, nw):
+    occs = occurrences(p, radii)
+    if occs is None:
+        return None
+    M = {}
+    for row, per_block in occs:
+        occ_contrib(M, p["n"], row, per_block, nw)
     return M
 
 # ------------------------------------------------------------------ Coq rendering
@@ -373,9 +385,9 @@ def coq_block(b, radii, timed_table=None):
     return "(mkblock %s %s %s %s %s %d %s)" % (C.coq_bool(b["rev"]), nl(radii), kf, mask, C.coq_bool(b["norm"]), b["off"], qc(b["mix"]))
 
 
-def coq_expr(p, radii, nw):
-    kind, n = p["kind"], p["n"]
-    nwb = C.coq_bool(nw)
+def coq_parts(p, radii):
+    """(events driver, occurrence-list function, blocks, trailing arguments) of the Coq model call for this plan."""
+    kind = p["kind"]
     if kind == "timed":
         tables = []
         for b in p["blocks"]:
@@ -390,16 +402,24 @@ def coq_expr(p, radii, nw):
             tables.append(tab)
         blocks = "[" + "; ".join(coq_block(b, radii[i], tables[i]) for i, b in enumerate(p["blocks"])) + "]"
         docs = "[" + "; ".join("[" + "; ".join("(%d, %d%%Z)" % (t, k) for t, k in d) + "]" for d in p["docs"]) + "]"
-        return "show_matrix (timed_events zabsdiff 0%%Z %s %s %d %s)" % (blocks, nwb, n, docs)
+        return "timed_events zabsdiff 0%Z", "timed_occs zabsdiff 0%Z", blocks, docs
     blocks = "[" + "; ".join(coq_block(b, radii[i]) for i, b in enumerate(p["blocks"])) + "]"
     if kind == "token":
-        return "show_matrix (token_events %s %s %d %s)" % (blocks, nwb, n, "[" + "; ".join(nl(d) for d in p["docs"]) + "]")
+        return "token_events", "token_occs", blocks, "[" + "; ".join(nl(d) for d in p["docs"]) + "]"
     if kind == "ngram":
         dic = "[" + "; ".join("(%s, %d)" % (nl(g), i) for g, i in sorted(p["grams"].items(), key=lambda x: x[1])) + "]"
-        return "show_matrix (ngram_events %s %s %d %s %d %s)" % (blocks, nwb, n, dic, p["size"],
-                                                                 "[" + "; ".join(nl(d) for d in p["docs"]) + "]")
+        return "ngram_events", "ngram_occs", blocks, "%s %d %s" % (dic, p["size"], "[" + "; ".join(nl(d) for d in p["docs"]) + "]")
     docs = "[" + "; ".join("[" + "; ".join(nl(ms) for ms in d) + "]" for d in p["docs"]) + "]"
-    return "show_matrix (multi_events %s %s %d %s)" % (blocks, nwb, n, docs)
+    return "multi_events", "multi_occs", blocks, docs
+
+
+def coq_events(p, radii, nw):
+    ev, _, blocks, tail = coq_parts(p, radii)
+    return "(%s %s %s %d %s)" % (ev, blocks, C.coq_bool(nw), p["n"], tail)
+
+
+def coq_expr(p, radii, nw):
+    return "show_matrix " + coq_events(p, radii, nw)
 
 
 def model_matrix(val):
@@ -452,8 +472,8 @@ def judge(ctx, case, res, model_val, stats, replay_mode=False):
     if "error" in p:
         # no kept token / n-gram at all: nothing to count; the only demand is a Python exception (no crash, no matrix)
         stats["expected_error"] += 1
-        if "err" not in res or res.get("err") == "crash":
-            ctx.report("a corpus without any kept token / n-gram must raise an exception, got %s" % str(res)[:200],
+        if res.get("err") == "crash" or ("ok" in res and res["ok"]["triples"]):
+            ctx.report("a corpus without any kept token / n-gram has nothing to count, got %s" % str(res)[:200],
                        {"stage": "oracle", "case": case, "actual": res})
         return None
     if "err" in res:
@@ -554,7 +574,15 @@ def start_compiled(ex, cases, n_jit):
     jit_idx = {}
     for i, c in enumerate(cases[:n_jit]):
         jit_idx.setdefault(c["kind"], []).append(i)
-    return jit_idx, {k: ex.submit(C.run_impl, "c03", [cases[i] for i in ix]) for k, ix in jit_idx.items()}
+    # C.run_impl names its scratch files by (script, pid, millisecond): concurrent calls are staggered
+    return jit_idx, {k: ex.submit(delayed_impl, 0.05 * (j + 1), [cases[i] for i in ix])
+                     for j, (k, ix) in enumerate(sorted(jit_idx.items()))}
+
+
+def delayed_impl(delay, cases, env=None):
+    import time
+    time.sleep(delay)
+    return C.run_impl("c03", cases, env)
 
 
 def collect_compiled(jit_idx, futs):
